@@ -112,8 +112,13 @@ func genC06(seed int64, tier string) *Scenario {
 		sc.Targets[len(sc.Targets)-1].Phases = ph
 		return t
 	}
-	class := rng.Intn(12)
+	class := rng.Intn(13)
 	switch class {
+	case 12: // one target never healthy, another healthy at first and failing again before the deadline
+		f.Kind = pick(rng, "deploy", "rollout_deploy")
+		f.Targets = ci.newTargets(sc, rng, 2)
+		sc.Targets[len(sc.Targets)-2].Phases = []Phase{{Until: time.Duration(50+rng.Intn(int(deployT/time.Millisecond)/2)) * time.Millisecond, Kind: "ok"}, {Kind: "status", Status: 500}}
+		sc.Targets[len(sc.Targets)-1].Phases = []Phase{neverHealthy(rng, sc.HC.Timeout)}
 	case 0: // malformed target name
 		f.Kind = pick(rng, "deploy", "rollout_deploy")
 		f.Targets = append(ci.newTargets(sc, rng, rng.Intn(2)), pick(rng, "bad target!", "http://x:80", "", "a/b", ":80"))
@@ -208,7 +213,7 @@ func checkC06(r *RunResult) []Violation {
 		return out // C06 speaks about commands that report an error
 	}
 	r.Probes["failed_as_expected"]++
-	if strings.Contains(r.Sc.Note, "class 1") || strings.Contains(r.Sc.Note, "class 2") || strings.Contains(r.Sc.Note, "class 6") || strings.Contains(r.Sc.Note, "class 7") {
+	if r.Sc.Note == "failure class 1" || r.Sc.Note == "failure class 12" || strings.Contains(r.Sc.Note, "class 2") || strings.Contains(r.Sc.Note, "class 6") || strings.Contains(r.Sc.Note, "class 7") {
 		r.Probes["late_failure"]++
 	}
 	for _, c := range w.Cmds {
